@@ -61,6 +61,7 @@ func (m *Machine) bindParams(st *State, fn *ssa.Function, args []Value, fvals []
 		if p, ok := v.(*Ptr); ok {
 			if _, isPtr := fv.Type().(*types.Pointer); isPtr {
 				bind[fv.Name()] = m.Load(st, p)
+				bind["&"+fv.Name()] = p
 				continue
 			}
 		}
@@ -185,6 +186,12 @@ func (m *Machine) verifyOnce() {
 			}
 			st.assume(v.(*Term))
 			m.learnDistinct(v.(*Term))
+		}
+	}
+	m.assignLocs = nil
+	if m.fc != nil && m.fc.HasAssigns {
+		for _, a := range m.fc.Assigns {
+			m.assignLocs = append(m.assignLocs, m.evalLoc(st, m.fc, relName(fn), a, bind)...)
 		}
 	}
 	fr.heap0 = cloneHeap(st.heap)
@@ -594,6 +601,13 @@ func (m *Machine) contractHavoc(st *State, fr *Frame, fc *FuncContract, name str
 	for _, a := range fc.Assigns {
 		locs := m.evalLoc(st, fc, name, a, bind)
 		for _, p := range locs {
+			m.frameCheck(st, fr, nil, p, "callee "+name+" assigns "+a)
+			if p.Path == "*" {
+				for _, l := range m.ts.Leaves(p.Elem) {
+					m.setElemArr(st, p.Elem, p.Ref, l, m.ctx.Fresh("hv.elems", ArrSort(m.ts.Idx(), l.sort)))
+				}
+				continue
+			}
 			m.havocLoc(st, p, "hv."+mangle(name))
 		}
 	}
@@ -604,6 +618,25 @@ func (m *Machine) contractHavoc(st *State, fr *Frame, fc *FuncContract, name str
 // where root is a parameter / captured variable of the callee.
 func (m *Machine) evalLoc(st *State, fc *FuncContract, name, expr string, bind map[string]Value) []*Ptr {
 	e := strings.TrimSpace(expr)
+	if strings.HasSuffix(e, "[*]") {
+		// all elements of a slice-valued expression
+		base := strings.TrimSuffix(e, "[*]")
+		var sl *Slice
+		if v, ok := bind[base]; ok {
+			sl, _ = v.(*Slice)
+		} else {
+			for _, p := range m.evalLoc(st, fc, name, base, bind) {
+				if x, ok := m.Load(st, p).(*Slice); ok {
+					sl = x
+				}
+			}
+		}
+		if sl == nil {
+			m.problem("%s: assigns expression %q is not a slice", fc.Line, expr)
+			return nil
+		}
+		return []*Ptr{{Mem: m.ts.ElemMem(sl.Elem), Ref: sl.Arr, Path: "*", Elem: sl.Elem}}
+	}
 	deref := false
 	if strings.HasPrefix(e, "*") {
 		deref = true
@@ -625,6 +658,9 @@ func (m *Machine) evalLoc(st *State, fc *FuncContract, name, expr string, bind m
 	}
 	p, ok := v.(*Ptr)
 	if !ok {
+		if cell, isCell := bind["&"+parts[0]]; isCell && len(parts) == 1 {
+			return []*Ptr{cell.(*Ptr)}
+		}
 		m.problem("%s: assigns root %q is not a pointer in contract of %s", fc.Line, parts[0], name)
 		return nil
 	}
@@ -1281,4 +1317,63 @@ func (m *Machine) typeHasRefs(t types.Type, depth int) bool {
 		}
 	}
 	return false
+}
+
+// frameCheck: a write by the function under verification (or by a callee, per its assigns clause)
+// must hit a location allocated during the call, a lock-guarded field, or a location listed in
+// the function's own assigns clause. Callers rely on exactly this frame.
+func (m *Machine) frameCheck(st *State, fr *Frame, ins ssa.Instruction, p *Ptr, what string) {
+	if st.pure || m.fc == nil || !m.fc.HasAssigns || m.refute {
+		return
+	}
+	if m.isFreshRef(st, p.Ref) {
+		return
+	}
+	if p.Ref.op == "ite" {
+		// e.g. append target: in place or fresh
+		allFresh := true
+		var walk func(t *Term)
+		walk = func(t *Term) {
+			if t.op == "ite" {
+				walk(t.args[1])
+				walk(t.args[2])
+			} else if !m.isFreshRef(st, t) {
+				allFresh = false
+			}
+		}
+		walk(p.Ref)
+		if allFresh {
+			return
+		}
+	}
+	first := p.Path
+	if i := strings.Index(first, "."); i >= 0 {
+		first = first[:i]
+	}
+	for _, g := range m.P.Contracts.Guards {
+		if g.Field == p.Mem+"."+first {
+			return // guarded (or role-confined) field: discipline is checked by guard.* obligations; callers treat it as volatile
+		}
+	}
+	if strings.HasPrefix(p.Mem, "global<") {
+		return
+	}
+	var alts []*Term
+	for _, a := range m.assignLocs {
+		if a.Mem != p.Mem {
+			continue
+		}
+		if a.Path == "*" || a.Path == "" || a.Path == p.Path || strings.HasPrefix(p.Path, a.Path+".") {
+			alts = append(alts, m.ctx.Eq(a.Ref, p.Ref))
+		}
+	}
+	ord := "callee"
+	if ins != nil {
+		ord = fmt.Sprint(m.ordinal(fr.fn, ins, ""))
+	}
+	loc := p.Mem
+	if p.Path != "" {
+		loc += "." + p.Path
+	}
+	m.oblige(st, fr, "frame", fmt.Sprintf("%s.%s", mangle(loc), ord), m.ctx.Or(alts...), m.allTags(), "write to "+loc+" ("+what+") is covered by the assigns clause")
 }
